@@ -603,14 +603,17 @@ func isStartTLSConn(conn net.Conn) bool {
 //@   loop 0 vars (tooLong bool, isPrefix bool, err error)
 //@   loop 0 invariant __resultBool("Reader.ReadLine", 1) == isPrefix
 
-// APPEND: once the literal has been accepted, the handler never returns
+// APPEND: the octets of a literal are read (drained) only if the client sends
+// them - the literal is non-synchronising, or the go-ahead was written; once
+// the literal has been accepted, the handler never returns
 // without draining it (whatever the back end answered), and after the back end
 // was called it consumes the rest of the command line - otherwise the message
 // bytes would be parsed as commands.
 //
 //@ func (c *Conn) handleAppend(tag string, dec *imapwire.Decoder) (err error)
-//@   props C04:post,pre@call C06:callsite
+//@   props C04:post,pre@call,callsite C06:callsite
 //@   callsite Session.Append requires __result("LiteralReader.Size") <= appendLimit
+//@   callsite io.Copy(dst io.Writer, src io.Reader) requires __resultBool("Decoder.ExpectLiteralReader", 1) || (__called("Conn.acceptLiteral") && !__failed("Conn.acceptLiteral"))
 //@   requires tag != ""
 //@   ensures err == nil ==> __ghost("tagged") == old(__ghost("tagged"))+1
 //@   ensures err != nil ==> __ghost("tagged") == old(__ghost("tagged")) || __failed("Conn.writeAppendOK")
